@@ -17,7 +17,7 @@ import ast
 import numpy as np
 import sympy as sp
 
-from ..alg import Interp, Namespace, PyHook, Unsupported, arr, symbols_array
+from ..alg import Frame, Interp, Namespace, PyHook, Unsupported, _Return, arr, symbols_array, tolerant_block
 from ..effects import Effects
 from ..index import Index
 from ..preserve import check_surgery
@@ -460,6 +460,55 @@ def check(run):
            "apply_scale((3,)) applies diag(sx, sy, sz, 1)", sd)
     expect("trimesh.path.path:Path2D.apply_scale", s1, [[s1, 0, 0], [0, s1, 0], [0, 0, 1]], "Path2D.apply_scale(s) applies diag(s, s, 1)")
     expect("trimesh.path.path:Path2D.apply_scale", s2, [[s2[0], 0, 0], [0, s2[1], 0], [0, 0, 1]], "Path2D.apply_scale((2,)) applies diag(sx, sy, 1)")
+
+    # ------------------------------------------------------------------ R10 primitives under a scaling matrix
+    run.rule("R10", "Primitive.apply_transform with scale s: every size parameter is multiplied by s and the stored transform T' satisfies "
+                    "T'.(s p) == M.T.p for every local point p (so the re-parameterised primitive is the transformed one)")
+    pa_ = ix.func("trimesh.primitives:Primitive.apply_transform")
+    KINDS = {"Box": ["extents"], "Cylinder": ["height", "radius"], "Capsule": ["height", "radius"], "Sphere": ["radius"]}
+    sc = sp.Symbol("s", positive=True)
+    for kind, sizes in KINDS.items():
+        Mx = symbols_array("m", (4, 4))
+        Mx[3] = [0, 0, 0, 1]
+        Cx = symbols_array("c", (4, 4))
+        Cx[3] = [0, 0, 0, 1]
+        vals = {k: (symbols_array("e", (3,)) if k == "extents" else sp.Symbol(k, positive=True)) for k in sizes}
+        prim = Namespace(kind + "Attributes", transform=Cx.copy(), **{k: (v.copy() if isinstance(v, np.ndarray) else v) for k, v in vals.items()})
+        me = Namespace(kind, primitive=prim)
+        it = Interp(ix, overrides={("Primitive.apply_transform", "scale"): sc})
+        it.stubs["trimesh.transformations:is_rigid"] = lambda itp, args, kw: True
+
+        def dec(fr, t, _sizes=sizes):
+            txt = ast.unparse(t)
+            if "isinstance(self, kinds)" in txt:
+                return True  # the scaled branch of the four supported kinds
+            for k in ("height", "radius", "extents"):
+                if f"hasattr(prim, '{k}')" in txt:
+                    return k in _sizes
+            return False
+
+        it.decider = dec
+        fr = Frame(it, pa_, {"self": me, "matrix": Mx})
+        skipped = []
+        try:
+            tolerant_block(fr, pa_.node.body, skipped)
+        except _Return:
+            pass
+        U = arr(prim.transform)
+        pl = symbols_array("p", (3,))
+        scaled_ok = all(sp.simplify(sp.sympify(x_) - sc * sp.sympify(y_)) == 0
+                        for k in sizes for x_, y_ in zip(np.ravel(arr(getattr(prim, k))), np.ravel(arr(vals[k]))))
+        new = U.dot(np.append(sc * pl, 1))
+        old = Mx.dot(Cx.dot(np.append(pl, 1)))
+        moved_ok = U is not Cx and all(sp.simplify(a_ - b_) == 0 for a_, b_ in zip(new, old))
+        ok = scaled_ok and moved_ok and not skipped
+        run.obligation("R10", pa_.where, f"{kind}: size parameters {sizes} scaled by s: {scaled_ok}; T'.(s p) == M.T.p: {moved_ok}"
+                                         f"{'; untranslated: ' + str(skipped[:2]) if skipped else ''}", ok)
+        if not ok and not skipped:
+            run.violation("R10", pa_.where, f"Primitive.apply_transform ({kind}) under a scaling matrix: size parameters scaled: {scaled_ok}, placement T'.(s p) == M.T.p: "
+                                            f"{moved_ok}: the re-parameterised primitive is not the transformed primitive", key=key_of("C04-R10", kind))
+        elif skipped:
+            raise AnalysisError(f"E3 cannot translate Primitive.apply_transform for {kind}: {skipped[:3]}")
 
     # ------------------------------------------------------------------ R9 util.allclose is a max-norm test
     ac = ix.func("trimesh.util:allclose")
